@@ -316,6 +316,9 @@ def video_key(rng, codec):
 
 
 def video_delta(rng, codec):
+    if codec in ("h264", "h265") and rng.chance(1, 25):
+        # a "frame" made of start codes only (every unit empty): non-empty data, nothing to store
+        return rng.choice([SC4, SC3, SC4 + SC3, SC3 + SC4 + SC3, b"\xaa" + SC3, SC3 + b"\x00"])
     return {"h264": h264_delta, "h265": h265_delta, "av1": av1_delta, "vp9": vp9_delta}[codec](rng) + annexb_tail(rng, codec)
 
 
